@@ -31,26 +31,32 @@ var b32k = hs.Mk("k32", hs.Det(11, 32<<10), "")
 
 func universe2() []hs.Blob { return []hs.Blob{hs.BA, hs.BSha1, b32k} }
 
-func spaces(res *vk.Result) []*opseq.Space {
+// spaces returns the explored spaces of the tier; with all (replay) every
+// space of every tier.
+func spaces(res *vk.Result, all bool) []*opseq.Space {
 	var out []*opseq.Space
 	for i, c := range Confs() {
-		if !vk.Thorough() && !c.Quick {
+		if !all && !vk.Thorough() && !c.Quick {
 			continue
 		}
 		c := c
 		u := universe()
 		depth := 3
-		if !vk.Thorough() && c.Name() != "memory+memory" {
+		if !all && !vk.Thorough() && c.Name() != "memory+memory" {
 			depth = 2 // quick: depth 3 on one configuration, depth 2 on the other five
 		}
 		out = append(out, &opseq.Space{
 			Name: c.Name(), Ops: Ops(u), Depth: depth, SigPrefix: "C18|" + c.Name(), WorkBase: i * 5,
 			New: func() (opseq.Sys, error) { return NewSys(c, u, c.Name(), res) },
 		})
-		if vk.Thorough() {
+		if all || vk.Thorough() {
 			u2 := universe2()
+			d2 := 2
+			if all || map[string]bool{"memory+kv": true, "localdisk+sqlite": true, "diskpacked+leveldb": true, "blobpacked+memory": true}[c.Name()] {
+				d2 = 3 // second universe: depth 3 on one cell per storage type, depth 2 elsewhere
+			}
 			out = append(out, &opseq.Space{
-				Name: c.Name() + "/u2", Ops: Ops(u2), Depth: 2, SigPrefix: "C18|" + c.Name(), WorkBase: i*5 + 3,
+				Name: c.Name() + "/u2", Ops: Ops(u2), Depth: d2, SigPrefix: "C18|" + c.Name(), WorkBase: i*5 + 3,
 				New: func() (opseq.Sys, error) { return NewSys(c, u2, c.Name()+"/u2", res) },
 			})
 		}
@@ -67,14 +73,13 @@ func TestCheck(t *testing.T) {
 		"blobs limited to the literal universes; storage/index types needing network services (s3, b2, gcs, mysql, postgres, mongo) are out of scope",
 		"one server per process at a time (auth mode and genconfig's noMkdir are process-global in perkeep)",
 	}
-	sps := spaces(res)
 	if rp, ok := vk.ReplayFile(); ok {
-		replay(res, sps, rp)
+		replay(res, spaces(res, true), rp)
 		res.Write()
 		return
 	}
 	runCold(res, tierConfs(), "", 0)
-	for _, sp := range sps {
+	for _, sp := range spaces(res, false) {
 		opseq.Run(sp, res, vk.Deadline())
 	}
 	res.Write()
